@@ -175,7 +175,7 @@ pub fn proxy_outcome(c: &ProxyCase) -> Outcome {
             let mut sent = vec![0usize; clients.len()];
             let mut lib_got: Vec<Vec<Frames>> = vec![vec![]; clients.len()];
             let total: usize = c.clients.iter().map(|x| x.requests).sum();
-            let mut sched = c.schedule.iter().copied().chain(std::iter::repeat(0x7fffu16));
+            let mut sched_used = 0usize;
             let mut steps = 0usize;
             let mut front_fed = false;
             let mut back_fed = false;
@@ -303,7 +303,12 @@ pub fn proxy_outcome(c: &ProxyCase) -> Outcome {
                     Step(usize),
                     Deliver(Pipe, usize, bool),
                 }
-                let ch = sched.next().unwrap();
+                // once the generated schedule is used up the history is drained fairly: the choice
+                // rotates over all enabled actions and deliveries are whole (a constant choice
+                // could keep picking a few-byte delivery and run into the step cap)
+                let draining = sched_used >= c.schedule.len();
+                let ch = if draining { (sched_used as u32).wrapping_mul(40503) as u16 } else { c.schedule[sched_used] };
+                sched_used += 1;
                 let mut acts: Vec<Act> = vec![];
                 for a in sim.runnable() {
                     acts.push(Act::Step(a));
@@ -312,7 +317,9 @@ pub fn proxy_outcome(c: &ProxyCase) -> Outcome {
                     match cl {
                         ClientRt::Raw { link, .. } => {
                             if link.to_lib.undelivered() > 0 {
-                                acts.push(Act::Deliver(link.to_lib.clone(), 1 + ch as usize % 11, true));
+                                if !draining {
+                                    acts.push(Act::Deliver(link.to_lib.clone(), 1 + ch as usize % 11, true));
+                                }
                                 acts.push(Act::Deliver(link.to_lib.clone(), usize::MAX, true));
                             }
                         }
@@ -330,7 +337,9 @@ pub fn proxy_outcome(c: &ProxyCase) -> Outcome {
                     match w {
                         WorkerRt::Raw { link, .. } => {
                             if link.to_lib.undelivered() > 0 {
-                                acts.push(Act::Deliver(link.to_lib.clone(), 1 + ch as usize % 11, false));
+                                if !draining {
+                                    acts.push(Act::Deliver(link.to_lib.clone(), 1 + ch as usize % 11, false));
+                                }
                                 acts.push(Act::Deliver(link.to_lib.clone(), usize::MAX, false));
                             }
                         }
